@@ -768,7 +768,7 @@ func c05ErrPos(c *Ctx, base string, off int, local map[string]int64) {
 func c05AfterAnother(c *Ctx) {
 	r := c.R
 	warm := []string{"host = 'server01' AND value > 10", "a + b * (c - 1)", "time > now() - 1h\nAND x =~ /re/", "\"quoted name\" = 'v' OR f(x, 'y') < 2.5"}
-	probes := []string{"'abc", "\"abc", "  'abc", "\n'abc", "'a\\qb'", "'", "\"", "'abc\ndef'", "/* open", "?", "a + ?", "'ok' = 'abc", "1 +", "(a", "x =~ /(/", "\r\n  \"open", "\u00e9 = 'abc"}
+	probes := []string{"'abc", "\"abc", "  'abc", "\n'abc", "'a\\qb'", "'", "\"", "'abc\ndef'", "/* open", "?", "a + ?", "'ok' = 'abc", "1 +", "(a", "x =~ /(/", "\r\n  \"open", "\u00e9 = 'abc", "'a\xff\xfeb' ?", "/* \xff\xfe\xfd */ a = ?", "\"\xc3\xc3\" = ?", "x =~ /a\xf0\x9f/ AND ?", "'\xe2\x82' = 'abc"}
 	for _, w := range warm {
 		for _, pr := range probes {
 			var e1, e2, e3, e4, e5, e6 error
